@@ -22,12 +22,56 @@ Definition expect_ptype (e : expect) : Z := match e with EBindAck => c_PT_BIND_A
 Definition triple_of_pdu (p : pdu) : list Z * Z * option bytes :=
   match p with PBindAck m | PAlterContextResp m => ack_triple m | _ => ([], 0, None) end.
 
+(* what PDU.unpack returns decodes in Handshake.v's sense: ContextResult.unpack has looked every result code up in the enum *)
+Lemma for_range_inv {St} (P : St -> Prop) (body : St -> res (St * Z)) :
+  (forall s s' t, body s = Ok (s', t) -> P s -> P s') ->
+  forall fuel n s0 t0 s t, P s0 -> for_range fuel n body s0 t0 = Ok (s, t) -> P s.
+Proof.
+  intros Hb. induction fuel as [|f IH]; intros n s0 t0 s t H0 H; cbn [for_range] in H.
+  - destruct (n <=? 0); [apply Ok_inj in H; inversion H; subst; exact H0|discriminate].
+  - destruct (n <=? 0); [apply Ok_inj in H; inversion H; subst; exact H0|].
+    destruct (body s0) as [[s1 t1]|e] eqn:Eb; [|discriminate]. cbn [bind] in H.
+    eapply IH; [|exact H]. eapply Hb; eassumption.
+Qed.
+
+Lemma context_result_unpack_code view r : context_result_unpack view = Ok r -> result_code_ok (cr_result r) = true.
+Proof.
+  unfold context_result_unpack, enum_lookup. destruct (mem _ c_ContextResultCode_values) eqn:Em; [|discriminate]. cbn [bind].
+  destruct (uuid_of_bytes_le _); [|discriminate]. cbn [bind]. intro H. apply Ok_inj in H. subst r. cbn [cr_result]. exact Em.
+Qed.
+
+Lemma bind_ack_unpack_codes fuel view h st m t :
+  bind_ack_unpack fuel view h st = Ok (m, t) -> forallb result_code_ok (map cr_result (ba_results m)) = true.
+Proof.
+  unfold bind_ack_unpack. destruct (PyStr.utf8_decode _); [|discriminate]. cbn [bind].
+  destruct (index _ 0); [|discriminate]. cbn [bind].
+  match goal with |- (let* _ := for_range ?f ?n ?b ?s0 ?t0 in _) = _ -> _ => destruct (for_range f n b s0 t0) as [[sx tx]|e] eqn:Ef; [|discriminate] end.
+  cbn [bind]. intro H. apply Ok_inj in H. inversion H; subst. cbn [ba_results].
+  eapply (for_range_inv (fun st : bytes * list context_result => forallb result_code_ok (map cr_result (snd st)) = true)) in Ef; [exact Ef| |reflexivity].
+  intros [v acc] s' t' Hb Hacc. destruct (context_result_unpack v) as [r|e] eqn:Er; [|discriminate]. cbn [bind] in Hb.
+  apply Ok_inj in Hb. inversion Hb; subst. cbn [snd] in *. rewrite map_app, forallb_app, Hacc. cbn [map forallb andb].
+  rewrite (context_result_unpack_code _ _ Er). reflexivity.
+Qed.
+
+Lemma pdu_unpack_decodes fuel data p t : pdu_unpack fuel data = Ok (p, t) -> reply_decodes (reply_of_pdu p) = true.
+Proof.
+  unfold pdu_unpack. destruct (pdu_split data) as [[[view h] st]|e]; [|discriminate]. cbn [bind].
+  destruct (registry_lookup _); [|discriminate]. cbn [bind].
+  repeat match goal with |- (if ?c then _ else _) = _ -> _ => destruct c end; intro H;
+  match type of H with
+  | (let* _ := ?x in _) = _ => destruct x as [r|?] eqn:Ex; cbn [bind] in H; [|discriminate]
+  | _ => discriminate
+  end; try destruct r as [m tm]; apply Ok_inj in H; inversion H; subst; try reflexivity;
+  cbn [reply_of_pdu ack_triple reply_decodes]; eapply bind_ack_unpack_codes; exact Ex.
+Qed.
+
 (* the class check alone *)
 Lemma send_pdu_class_check sent e s p rest :
+  reply_decodes (reply_of_pdu p) = true ->
   server s = reply_of_pdu p :: rest ->
   fst (send_pdu sent e s) = (let* q := class_check (expect_ptype e) p in Ok (triple_of_pdu q)).
 Proof.
-  intro Hs. unfold send_pdu. cbn [server snoc_trace]. rewrite Hs.
+  intros Hd Hs. unfold send_pdu. cbn [server snoc_trace]. rewrite Hs, Hd. cbn [negb].
   destruct p, e; cbn; try reflexivity;
     unfold ack_triple; cbn; reflexivity.
 Qed.
@@ -50,5 +94,6 @@ Theorem send_pdu_classification (unwrap : unwrap_fn) auth sign hdr resp p t sent
   fst (send_pdu sent e s)
   = (let* q := process_pdu_as (expect_ptype e) unwrap auth None sign hdr resp in Ok (triple_of_pdu q)).
 Proof.
-  intros Hp Hs. rewrite process_pdu_as_bind_stage, Hp. cbn [bind]. exact (send_pdu_class_check sent e s p rest Hs).
+  intros Hp Hs. rewrite process_pdu_as_bind_stage, Hp. cbn [bind].
+  exact (send_pdu_class_check sent e s p rest (pdu_unpack_decodes _ _ _ _ Hp) Hs).
 Qed.
